@@ -84,7 +84,57 @@ func mutations(c [][]byte) [][][]byte {
 			add(m)
 		}
 	}
+	for _, t := range tokens {
+		m := cp(c)
+		for i := 1; i < len(c); i++ {
+			if isIntArg(c[i]) {
+				m[i] = t
+			}
+		}
+		add(m)
+	}
 	return out
+}
+
+func isIntArg(a []byte) bool {
+	d := a
+	if len(d) >= 1 && d[0] == '-' {
+		d = d[1:]
+	}
+	if len(d) == 0 {
+		return false
+	}
+	for _, b := range d {
+		if b < '0' || b > '9' {
+			return false
+		}
+	}
+	return true
+}
+
+// rekey: Robust.tla Rekey - the first key replaced by the key of the same family in the driver's initial state
+func rekey(c [][]byte) [][]byte {
+	if len(c) < 2 {
+		return c
+	}
+	fam := "str"
+	if len(c[1]) > 0 {
+		switch c[1][0] {
+		case 'l':
+			fam = "lst"
+		case 'h':
+			fam = "hsh"
+		case 's':
+			fam = "st"
+		case 'z':
+			fam = "zs"
+		case 'x':
+			fam = "xs"
+		}
+	}
+	m := append([][]byte{}, c...)
+	m[1] = []byte(fam)
+	return m
 }
 
 type drain struct{ c net.Conn }
@@ -375,6 +425,12 @@ func main() {
 		for _, c := range valid {
 			for _, m := range mutations(c) {
 				one(m, "mut")
+			}
+			if rk := rekey(c); key(rk) != key(c) {
+				one(rk, "mut")
+				for _, m := range mutations(rk) {
+					one(m, "mut")
+				}
 			}
 		}
 	}
